@@ -127,6 +127,12 @@ func specsFor(r *rand.Rand, cfg int) []env.ValSpec {
 	on, off := uint8(params.ValidatorOnline), uint8(params.ValidatorOffline)
 	ch, se, ho := params.RoleChancellor, params.RoleSenator, params.RoleHouse
 	y := env.YOU
+	if cfg%12 == 10 {
+		// a tiny network: the online chamber stake is BELOW the committee size (p is clamped to 1,
+		// every member wins exactly its stake in seats); the quorum (68.5 % of the committee) is still
+		// reachable, and every proof still has to be the member's own credential for this step
+		return []env.ValSpec{{ch, on, y(600), 0}, {se, on, y(500), 1}, {se, on, y(450), 2}, {ho, on, y(900), 3}, {se, off, y(700), 0}}
+	}
 	switch cfg % 6 {
 	case 0: // equal chamber stakes
 		return []env.ValSpec{{ch, on, y(1000), 0}, {ch, on, y(1000), 1}, {se, on, y(1000), 2}, {se, on, y(1000), 3}}
